@@ -4,8 +4,13 @@ package originium
 // part of the repository).  Harness entry points are the VH_* functions.
 
 import (
+	"container/list"
 	"fmt"
+	"os"
 	"time"
+
+	"github.com/B1NARY-GR0UP/originium/pkg/filter"
+	"github.com/B1NARY-GR0UP/originium/table"
 
 	vf "github.com/B1NARY-GR0UP/originium/internal/zzvf"
 	"github.com/B1NARY-GR0UP/originium/types"
@@ -129,6 +134,25 @@ func vcheckLookup(tag string, ok bool, got types.Entry, q vent, s vspec) {
 	}
 }
 
+// vplaceTable stores a table at an arbitrary level the way flushToL0 stores one at level 0
+// (real filter.Build and table.Build; file written directly).
+func vplaceTable(lm *levelManager, level int, kvs []types.Entry) {
+	lm.mu.Lock()
+	defer lm.mu.Unlock()
+	bf := filter.Build(kvs)
+	idx, tb := table.Build(kvs, lm.dataBlockSize, level)
+	for len(lm.levels) <= level {
+		lm.levels = append(lm.levels, list.New())
+	}
+	th := tableHandle{levelIdx: lm.maxLevelIdx(level) + 1, filter: *bf, dataBlockIndex: idx}
+	lm.levels[level].PushBack(th)
+	fd, err := os.OpenFile(lm.fileName(level, th.levelIdx), os.O_CREATE|os.O_RDWR|os.O_TRUNC, 0600)
+	vf.Assert("place.open", err == nil)
+	_, err = fd.Write(tb)
+	vf.Assert("place.write", err == nil)
+	_ = fd.Close()
+}
+
 var _ = time.Now
 
 // ---- system layer helpers (public API only, plus quiescence detection) ----
@@ -192,7 +216,7 @@ func vconfig(prefix string) Config {
 		MemtableByteThreshold:  vf.Int(prefix+"memThr", 1, 120),
 		ImmutableBuffer:        vf.Choose(prefix+"ib", 0, vf.Param("IBMAX", 1)),
 		DataBlockByteThreshold: []int{1, 40}[vf.Choose(prefix+"blk", 0, vf.Param("BLKMAX", 1))], // one entry per block / one block (arbitrary partitions: C10)
-		L0TargetNum:            vf.Choose(prefix+"l0", 1, vf.Param("L0MAX", 1)),
+		L0TargetNum:            vf.Choose(prefix+"l0", vf.Param("L0MIN", 1), vf.Param("L0MAX", 1)),
 		LevelRatio:             vf.Choose(prefix+"ratio", 1, vf.Param("RATIOMAX", 1)),
 	}
 }
